@@ -276,6 +276,10 @@ func init() {
 		NumCases:    func(t string) int { return tierN(t, 1200, 40000) },
 		Race:        func(t string, i int) bool { return i%40 == 0 },
 		Run: func(c *core.Case) *core.Result {
+			if c.Idx%10 == 9 {
+				// shaped files (fragmented free lists, free runs of 254/255/256 pages, large overwrite maps) with reopens
+				return runShapeCaseFor(c, Monitors{Property: "C04", Ownership: true, Partition: true, Coverage: true, Content: true}, false)
+			}
 			return runFileCase(c, fileCaseSpec{
 				mon:     Monitors{Property: "C04", Ownership: true, Partition: true, Coverage: true, Content: true},
 				bounded: 2,
